@@ -59,6 +59,11 @@ pub struct BudgetCase {
     /// policies, as the very last units of work of authorize)
     #[serde(default)]
     pub placement: u8,
+    /// how the authorizer comes to exist: 0 built directly, 1 from a builder that was saved and
+    /// restored first (the limits travel in the builder's snapshot), 2 built, saved before any
+    /// evaluation and restored
+    #[serde(default)]
+    pub route: u8,
 }
 
 /// the authorizer without its checks, and the token that carries them instead
@@ -216,7 +221,12 @@ pub fn run_history(case: &BudgetCase, stall: Option<(u64, u64)>, with_idle: bool
     });
     let auth = program_ast(&case.program);
     let (auth, token) = place(&auth, case.placement)?;
-    let mut a: LibAuthorizer = libeval::build_authorizer(token.as_ref(), &auth, case.limits)?;
+    let route = match case.route {
+        1 => libeval::Route::BuilderSnapshot,
+        2 => libeval::Route::SnapshotFresh,
+        _ => libeval::Route::Direct,
+    };
+    let mut a: LibAuthorizer = libeval::build_via(route, token.as_ref(), &auth, case.limits)?;
     let mut idle_total = 0u64;
     let mut out = Vec::new();
     let mut after_restore = false;
@@ -305,8 +315,8 @@ impl BudgetEngine {
         let l = case.limits;
         let ctx = |o: &Obs| {
             format!(
-                "program {:?} (checks placement {}) limits (facts {}, iterations {}, time {} ns) {} ns per work tick, stall {:?}, history {:?}: call {} -> {} with iterations()={} fact_count()={} work time {} ns{}",
-                case.program, case.placement, l.max_facts, l.max_iterations, l.max_time_ns, case.per_tick_ns, stall, case.history, o.call, o.result, o.iterations, o.facts, o.w_after,
+                "program {:?} (checks placement {}, route {}) limits (facts {}, iterations {}, time {} ns) {} ns per work tick, stall {:?}, history {:?}: call {} -> {} with iterations()={} fact_count()={} work time {} ns{}",
+                case.program, case.placement, case.route, l.max_facts, l.max_iterations, l.max_time_ns, case.per_tick_ns, stall, case.history, o.call, o.result, o.iterations, o.facts, o.w_after,
                 if o.after_restore { " (after snapshot-restore)" } else { "" }
             )
         };
@@ -485,6 +495,7 @@ impl Engine for BudgetEngine {
             history,
             hash_key: rng.next() >> 8,
             placement: *rng.pick(&[0u8, 0, 0, 1, 2, 2, 3]),
+            route: *rng.pick(&[0u8, 0, 0, 1, 1, 2]),
         }
     }
 
@@ -498,7 +509,7 @@ impl Engine for BudgetEngine {
         w.run(10_000);
         let counts = w.fact_counts.clone();
         let n_rules = auth.rules.len();
-        stats.trace.push(format!("{:?} checks-placement={}", case.program, case.placement));
+        stats.trace.push(format!("{:?} checks-placement={} route={}", case.program, case.placement, case.route));
         stats.bump(&format!("c10.placement.{}", case.placement));
         stats.trace.push(format!("{:?}", case.history));
 
